@@ -57,6 +57,13 @@ class PendingNamedExpr(PendingExprGeneric[NamedExpr]):
 
     def get_result(self) -> expr:
         assert self.value is not None
+        for comp in self.nsp.comp_stack:
+            if isinstance(comp, PendingLambda):
+                # inside a lambda, the target is a local variable of the lambda
+                return NamedExpr(
+                    target=Name(id=self.node.target.id, ctx=Store()),
+                    value=self.value,
+                )
         result = self.nsp.get_assign(self.node.target.id, self.value)
         if not isinstance(result, NamedExpr):
             result = Subscript(
@@ -147,6 +154,19 @@ class PendingLambda(PendingExprGeneric[Lambda]):
             self.target_names.add(_args.vararg.arg)
         if _args.kwarg is not None:
             self.target_names.add(_args.kwarg.arg)
+
+        # the targets of the walruses in the body are local variables of the lambda
+        stack: list[AST] = [node.body]
+        while stack:
+            sub_node = stack.pop()
+            if isinstance(sub_node, Lambda):
+                # only the default values of an inner lambda run in this scope
+                stack.extend(sub_node.args.defaults)
+                stack.extend(i for i in sub_node.args.kw_defaults if i is not None)
+                continue
+            if isinstance(sub_node, NamedExpr):
+                self.target_names.add(sub_node.target.id)
+            stack.extend(iter_child_nodes(sub_node))
 
         self.iter_fields = self._iter_fields()
 
